@@ -1181,3 +1181,18 @@ V('data', lambda e, w: e.data(w.s[0], 0, 6))
 V('dicts', lambda e, w: e.dicts(w.s[0], 0, 3))
 V('records', lambda e, w: e.records(w.s[0], 2, missing='M'))
 V('namedtuples', lambda e, w: e.namedtuples(w.s[0], 0, 2))
+
+
+# secondary inputs that are themselves lazy petl views
+V('annex', lambda e, w: e.annex(w.s[0], e.convert(w.s[1], 'c', f_inc)))
+V('cat', lambda e, w: e.cat(e.cut(w.s[0], 'a', 'b'), e.cutout(w.s[1], 'a')))
+V('stack', lambda e, w: e.stack(e.rename(w.s[0], 'a', 'A'),
+                                e.convert(w.s[1], 'b', f_upper)))
+V('hashleftjoin',
+  lambda e, w: e.hashleftjoin(e.convert(w.s[0], 'b', f_upper),
+                              e.addfield(w.s[1], 'z', 1), key='a'))
+V('hashlookupjoin',
+  lambda e, w: e.hashlookupjoin(e.wrap(w.s[0]), e.cut(w.s[1], 'a', 'c'),
+                                key='a'))
+V('hashcomplement',
+  lambda e, w: e.hashcomplement(e.wrap(w.s[0]), e.wrap(w.s[1])))
